@@ -130,6 +130,14 @@ theorem mean_preserved (par : Parent ℝ) (s s' : DD ℝ) (hs : Pre s) (H : Pare
     discreteMean s' = (par.E s.dom.hi - par.E s.dom.lo) / (par.P s.dom.hi - par.P s.dom.lo) :=
   eqProp_mean par s s' hs.n_pos hs.prec_nonneg hs.dom_ordered H hne hmed hr h
 
+/-- **class values are class means**: with mean-valued classes every stored class value is the
+parent's conditional mean over its own class interval, `(E b − E a)/(P b − P a)` -/
+theorem class_value_is_mean (par : Parent ℝ) (s s' : DD ℝ) (hs : Pre s) (H : ParentOK par s.dom.lo s.dom.hi)
+    (hne : par.P s.dom.hi ≠ par.P s.dom.lo) (hmed : s.median = false) (hr : resolved par s = true)
+    (h : eqProp par s = .ok s') :
+    s'.cats = (pairs s'.allBounds).map (fun p => (par.E p.2 - par.E p.1) / (par.P p.2 - par.P p.1)) :=
+  eqProp_class_means par s s' hs.n_pos hs.prec_nonneg hs.dom_ordered H hne hmed hr h
+
 /-- where the precision does not interfere the discretisation returns (the model's fuel for the
 separation loop is not needed) -/
 theorem resolved_terminates (par : Parent ℝ) (s : DD ℝ) (hs : Pre s) (hr : resolved par s = true) :
@@ -208,6 +216,53 @@ asked only when the scheme is not EQUAL_PROB. -/
 theorem discretize_partition (par : Parent ℝ) (s s' : DD ℝ) (hs : Pre s) (H : ParentOK par s.dom.lo s.dom.hi)
     (hi : IntOK par s) (h : discretize par s = .ok s') : Valid s' ∧ SameCfg s s' :=
   discretize_valid par s s' hs H hi h
+
+/-- EQUAL_PROB_WHEN_POSSIBLE: the result never has two equal neighbouring bounds — either the
+equal-probability bounds are pairwise distinct, or the equal-interval scheme took over -/
+theorem when_possible_distinct_bounds (par : Parent ℝ) (s s' : DD ℝ) (hs : Pre s) (hsch : s.scheme = 3)
+    (hi : IntOK par s) (h : discretize par s = .ok s') : hasEqualNeighbours s'.allBounds = false := by
+  unfold discretize at h
+  have hn0 : (s.n == 0) = false := by have := hs.n_pos; simp; omega
+  simp only [hn0, Bool.false_eq_true, if_false, hsch] at h
+  have h31 : ((3 : Nat) == 1) = false := by decide
+  have h32 : ((3 : Nat) == 2) = false := by decide
+  simp only [h31, h32, Bool.false_eq_true, if_false] at h
+  cases he : eqProp par s with
+  | error e => simp [he, bind, Except.bind] at h
+  | ok s1 =>
+    simp only [he, bind, Except.bind] at h
+    obtain ⟨_, _, _, _, e5, e6, e7, _, _⟩ := eqProp_map par s s1 hs.n_pos hs.prec_nonneg he
+    split at h
+    · injection h with h; subst h
+      have hI := hi (by rw [hsch]; decide)
+      have hw : s1.prec < (s1.dom.hi - s1.dom.lo) / (s1.n : ℝ) := by rw [e5, e6, e7]; exact hI.1
+      obtain ⟨hall, _⟩ := eqInt_spec par s1 (by rw [e5]; exact hs.n_pos) (by rw [e7]; exact hs.prec_nonneg) hw
+      rw [hall]
+      have hwpos : 0 < (s1.dom.hi - s1.dom.lo) / (s1.n : ℝ) := lt_of_le_of_lt (by rw [e7]; exact hs.prec_nonneg) hw
+      -- strictly increasing: no equal neighbours
+      have hchain : ((List.range' 0 (s1.n + 1)).map (fun i : ℕ => s1.dom.lo + (i : ℝ) * ((s1.dom.hi - s1.dom.lo) / (s1.n : ℝ)))).IsChain (· < ·) := by
+        apply List.Pairwise.isChain
+        rw [List.pairwise_map]
+        refine (List.pairwise_lt_range' (s := 0) (n := s1.n + 1) (step := 1) (by omega)).imp ?_
+        intro i j hij
+        have : (i : ℝ) + 1 ≤ (j : ℝ) := by exact_mod_cast hij
+        nlinarith
+      generalize ((List.range' 0 (s1.n + 1)).map (fun i : ℕ => s1.dom.lo + (i : ℝ) * ((s1.dom.hi - s1.dom.lo) / (s1.n : ℝ)))) = L at hchain
+      induction L with
+      | nil => rfl
+      | cons a t ih =>
+        cases t with
+        | nil => rfl
+        | cons b t' =>
+          rw [List.isChain_cons_cons] at hchain
+          simp only [hasEqualNeighbours, Bool.or_eq_false_iff]
+          refine ⟨?_, ih hchain.2⟩
+          cases hh : Scalar.eqb b a with
+          | false => rfl
+          | true => exact absurd ((ScalarReal.eqb_iff _ _).1 hh) (ne_of_gt hchain.1)
+    · rename_i hneq
+      injection h with h; subst h
+      simpa using hneq
 
 /-! ## look-ups -/
 
